@@ -109,10 +109,18 @@ pub fn preseal_melmint<C: ContentAddrStore>(state: UnsealedState<C>) -> Unsealed
     process_pegging(state)
 }
 
+/// Parses the pool a request names. `PoolKey::from_bytes` accepts the long encoding with the two denominations in either
+/// order (or twice the same), yet such a key still serialises to the name of the canonical pool: only the canonical
+/// spelling, whose left and right sides are the pool's left and right reserves, may name a pool.
+fn request_pool_key(data: &[u8]) -> Option<PoolKey> {
+    let pool_key = PoolKey::from_bytes(data)?;
+    (pool_key.left().to_bytes() < pool_key.right().to_bytes()).then_some(pool_key)
+}
+
 fn extract_pool_keys_sorted(transactions: &mut [Transaction]) -> Vec<PoolKey> {
     transactions
         .iter()
-        .filter_map(|tx| PoolKey::from_bytes(&tx.data))
+        .filter_map(|tx| request_pool_key(&tx.data))
         .collect::<Vec<_>>()
         .pipe(|mut v| {
             v.sort();
@@ -124,7 +132,7 @@ fn extract_pool_keys_sorted(transactions: &mut [Transaction]) -> Vec<PoolKey> {
 fn transactions_for_pool(transactions: &[Transaction], pool_key: &PoolKey) -> Vec<Transaction> {
     transactions
         .iter()
-        .filter(|tx| Some(pool_key) == PoolKey::from_bytes(&tx.data).as_ref())
+        .filter(|tx| Some(pool_key) == request_pool_key(&tx.data).as_ref())
         .cloned()
         .collect()
 }
@@ -236,7 +244,7 @@ fn get_swap_transactions<C: ContentAddrStore>(state: &UnsealedState<C>) -> Vec<T
             (tx.kind == TxKind::Swap).then_some(())?; // only swap transactions are swap requests
             (!tx.outputs.is_empty()).then_some(())?; // ensure not empty
             state.coins.get_coin(tx.output_coinid(0))?; // ensure that first output is unspent
-            let pool_key = PoolKey::from_bytes(&tx.data)?; // ensure that data contains a pool key
+            let pool_key = request_pool_key(&tx.data)?; // ensure that data contains a pool key
             let pool_state = state.pools.get(&pool_key)?; // ensure that pool key points to a valid pool
             // a pool emptied by withdrawing all its liquidity has zero reserves: nothing can be swapped against it
             (pool_state.lefts > 0 && pool_state.rights > 0).then_some(())?;
@@ -345,7 +353,7 @@ fn get_deposit_transactions<C: ContentAddrStore>(state: &UnsealedState<C>) -> Ve
                 && state.coins.get_coin(tx.output_coinid(0)).is_some()
                 && state.coins.get_coin(tx.output_coinid(1)).is_some())
             .then_some(())?;
-            let pool_key = PoolKey::from_bytes(&tx.data)?;
+            let pool_key = request_pool_key(&tx.data)?;
             // both sides must be worth something: a zero side would divide by a zero total and create a pool with a zero reserve
             (tx.outputs[0].value.0 > 0 && tx.outputs[1].value.0 > 0).then_some(())?;
             (tx.outputs[0].denom == pool_key.left() && tx.outputs[1].denom == pool_key.right())
@@ -428,7 +436,7 @@ fn get_withdrawal_transactions<C: ContentAddrStore>(state: &UnsealedState<C>) ->
                 && tx.outputs.len() == 1
                 && state.coins.get_coin(tx.output_coinid(0)).is_some())
             .then_some(())?;
-            let pool_key = PoolKey::from_bytes(&tx.data)?;
+            let pool_key = request_pool_key(&tx.data)?;
             state.pools.get(&pool_key)?;
             (tx.outputs[0].value.0 > 0).then_some(())?; // redeeming nothing is not a request (and would divide by a zero total)
             (tx.outputs[0].denom == pool_key.liq_token_denom()).then_some(tx)
